@@ -794,6 +794,31 @@ func main() {
 		w("Definition stream_defer_close : Z := %d.", deferClose)
 		w("Definition stream_setpos_calls : Z := %d.", setPos)
 		w("Definition stream_ctx_is_callers : Z := %d.", ctxAssign)
+		// every top-level statement of Stream that assigns s.endedUncancelled, with the statement before it
+		// (K2 repair: reset at entry, sampled immediately after parseEvents returned)
+		var ended []string
+		for i, st := range fd.Body.List {
+			as, ok := st.(*ast.AssignStmt)
+			if !ok || len(as.Lhs) != 1 || gp.exprString(as.Lhs[0]) != "s.endedUncancelled" {
+				continue
+			}
+			prev := ""
+			if i > 0 {
+				prev = gp.exprString(fd.Body.List[i-1])
+			}
+			ended = append(ended, prev+" ;; "+gp.exprString(st))
+		}
+		nested := 0
+		ast.Inspect(fd.Body, func(x ast.Node) bool {
+			if as, ok := x.(*ast.AssignStmt); ok && len(as.Lhs) == 1 && gp.exprString(as.Lhs[0]) == "s.endedUncancelled" {
+				nested++
+			}
+			return true
+		})
+		if nested != len(ended) {
+			die("Stream assigns s.endedUncancelled inside a nested statement")
+		}
+		w("Definition stream_ended_uncancelled_assigns : list (list Z) := [%s]. (* %s *)", strings.Join(mapStr(ended, bstr), "; "), strings.Join(ended, " | "))
 	}
 	{
 		fd := gp.methodDecl("slaveConnection", "readBinlogEvent")
